@@ -8,8 +8,8 @@
    order but nothing forces them out; no directory fsync is modelled).
 
    The program is NOT modelled: its syscalls come from `Script`, a sequence of event records that is
-   either a hand-written protocol (module FsAtomicProto: in-place, temp+rename, ...) or -- the binding
-   to the real code -- the strace recording of the real `luafmt --write` (module FsAtomicTrace).
+   either the hand-written protocols of module FsAtomicProto (in-place, temp+rename, ...) or -- the binding
+   to the real code -- the strace recording of the real `luafmt --write` (environment variable TRACE).
    TLC replays the script event by event (`Step`) and composes the faults after EVERY prefix:
 
      Kill            the process dies before event l (SIGKILL, SIGXFSZ, OOM ...): volatile state stays
@@ -26,9 +26,11 @@
    Instead of stopping at the first violation the verdicts are printed for every state (RUN lines for the
    fault-free prefix states, CASE lines for the terminal fault states, with the predicted content of
    every target) so that the driver can replay each fault for real and compare.  *)
-EXTENDS Naturals, Integers, Sequences, FiniteSets, TLC, Json
+EXTENDS Naturals, Integers, Sequences, FiniteSets, TLC, Json, IOUtils, FsAtomicProto
 
-CONSTANT Script          \* sequence of event records, see Apply
+\* The script (sequence of event records, see Apply): the strace recording named by the environment variable
+\* TRACE, or the hand-written protocols of FsAtomicProto.  TLCEval: read the file once, not at every use.
+Script == TLCEval(IF "TRACE" \in DOMAIN IOEnv THEN ndJsonDeserialize(IOEnv.TRACE) ELSE All)
 
 VARIABLES l,             \* next event
           run,           \* id of the current recorded run (from the last "reset" event)
@@ -209,7 +211,10 @@ EmitBrief ==
   THEN PrintT(<<"RUN", ToJson([run |-> run, l |-> l, killOk |-> KillOk, powerOk |-> PowerOk])>>)
   ELSE PrintT(<<"CASE", ToJson([run |-> run, fault |-> fault, killOk |-> KillOk, powerOk |-> PowerOk])>>)
 
-\* used by the protocol configurations, where TLC is supposed to stop at the first bad state
+\* plain invariants (for interactive use: TLC stops at the first bad state)
 InvKill == KillOk
 InvPower == PowerOk
+
+\* acceptance: the whole script was consumed by Step (the driver also checks the last RUN line)
+Accepted == TLCGet("stats").diameter >= Len(Script) + 1
 =============================================================================
